@@ -129,7 +129,10 @@ std::string Logic::disambiguateName(std::string const & protectedName, SRef sort
 //
 std::string Logic::protectName(std::string const & name, bool isInterpreted) const {
     assert(not name.empty());
-    if (not isInterpreted and (hasQuotableChars(name) or std::isdigit(name[0]) or isReservedWord(name))) {
+    // Names the lexer would read as a number ("-1", "-1.5") or as one of its single-character tokens need quotes as well
+    bool const looksLikeNumber = name.size() > 1 and name[0] == '-' and std::isdigit(name[1]);
+    bool const isSpecialToken = name == "!" or name == "_";
+    if (not isInterpreted and (hasQuotableChars(name) or std::isdigit(name[0]) or looksLikeNumber or isSpecialToken or isReservedWord(name))) {
         return '|' + name + '|';
     }
     return name;
